@@ -319,7 +319,8 @@ template <class G> struct Exec {
     const Jac ad0 = ad;
     out.nv = 0;
     hold_rot(st, a, b, out, HasRotation());
-    const double acc = out.nv ? out.v[out.nv - 1] : 0.0;
+    double acc = out.nv ? out.v[out.nv - 1] : 0.0;
+    if (!Acc<G>::held(a, b, acc)) out.flags |= 8;
     if (!same_bits(inv.coeffs(), inv0) || !same_bits(lg.coeffs(), lg0) || !same_bits(ad, ad0) || !same_bits(co, co0)) out.flags |= 8;
     Eigen::Matrix<S, Rep + DoF + 1, 1> all;
     all.template head<Rep>() = inv.coeffs(); all.template segment<DoF>(Rep) = lg.coeffs(); all(Rep + DoF) = S(acc);
